@@ -295,6 +295,7 @@ impl Engine for C13 {
                 lookups: lookups.clone(),
                 app_rows,
                 app_files: run.app_files.max(1),
+                app_console: false,
                 net_faults: run.net_faults.clone(),
                 fs_faults: run.fs_faults.clone(),
                 knobs: Knobs { max_write: sc.max_write, max_read: sc.max_read },
